@@ -231,7 +231,7 @@ var vC01Muts = 1
 var vC01Profiles = 4
 
 // vC01Kinds: the message types HandlePFCPMsg dispatches.
-const vC01Kinds = 10
+const vC01Kinds = 12
 
 // H_C01_ie: a mutated message of every dispatched type, injected after 0 or 1
 // accepted establishments, followed by a valid heartbeat.
@@ -250,6 +250,10 @@ func H_C01_ie() {
 		prof = 4 * vChoose("profile", 2)
 	case kind == 6 || kind == 7:
 		prof = vChoose("profile", 2)
+	case kind == 10:
+		prof = 2 * vChoose("profile", 2)
+	case kind == 11:
+		prof = 1
 	}
 	alloc := prof == 2 || prof == 5
 	sessionExists := prof == 1 || prof == 3 || prof == 5
@@ -341,8 +345,23 @@ func H_C01_ie() {
 		vTag("heartbeat-response")
 		typ = message.MsgTypeHeartbeatResponse
 		top = vNodes(ie.NewRecoveryTimeStamp(vTS))
+	case 10:
+		// the smallest establishment: one rule of each kind, so that one
+		// structural mutation reaches "no PDR", "no FAR", "no QER"
+		vTag("session-establishment-request-minimal")
+		typ = message.MsgTypeSessionEstablishmentRequest
+		withSEID, seid = true, 0
+		pdrs[0].choose = chooseFlags
+		pdrs[0].qerIDs = []uint32{1}
+		top = vNodes(ie.NewNodeID("", "", "cp.test"), vCPFSEID(0xbeef), pdrs[0].create(), fars[0].create(), qers[0].create())
+	case 11:
+		// a well-formed modification that removes every PDR of the session
+		vTag("session-modification-request-removing-all-pdrs")
+		typ = message.MsgTypeSessionModificationRequest
+		withSEID = true
+		top = vNodes(ie.NewRemovePDR(ie.NewPDRID(1)), ie.NewRemovePDR(ie.NewPDRID(2)), qers[0].update())
 	}
-	if withSEID && kind != 4 && vBool("unknown_seid") {
+	if withSEID && kind != 4 && kind != 10 && vBool("unknown_seid") {
 		seid = vU64("seid")
 	}
 	for m := 0; m < vC01Muts; m++ {
